@@ -111,9 +111,8 @@ def canonical_problem(tl):
         if not (isinstance(iv, (list, tuple)) and len(iv) == 2):
             return "interval is not a pair"
         a, b = iv
-        if not (isinstance(a, numbers.Integral) and isinstance(b, numbers.Integral)) \
-                or isinstance(a, bool) or isinstance(b, bool):
-            return "non-integer bound"
+        if not (isinstance(a, numbers.Integral) and isinstance(b, numbers.Integral)):
+            return "non-integer bound"          # (bool and numpy integers are integers)
         if a > b:
             return "start > end"
         if prev is not None and a < prev + 2:
@@ -287,6 +286,8 @@ def audit_queries(ctx, dn, G, m, tag="", ts=None, full=True):
     rng = ctx.rng
     for t in [None] + list(ts):
         S = m.static(t)
+        if (t == 0 or t == 1) and not isinstance(t, bool) and rng.random() < 0.3:
+            t = bool(t)         # True/False are the integers 1/0: the same instant, written differently
         # re-entrancy: a sweep over the interactions is started, left suspended while all the other queries of
         # this instant run, and finished afterwards; both the queries and the resumed sweep must be exact
         held = G.interactions_iter(t=t) if t is not None else G.interactions_iter()
